@@ -17,10 +17,10 @@ import e2e_common as ec
 
 CFG = {
     "C03": {"props": ["C03"], "profiles": [("control", 0.8), ("int", 0.2)],
-            "quick": (2000, 480), "thorough": (20000, 3000), "per_func": 3,
+            "quick": (2000, 480), "thorough": (20000, 3000), "per_func": 3, "sim": {"quick": 240, "thorough": 2400},
             "what": "control flow / operand stack / locals"},
     "C04": {"props": ["C04"], "profiles": [("calls", 0.85), ("init", 0.15)],
-            "quick": (1500, 400), "thorough": (12000, 3000), "per_func": 4,
+            "quick": (1500, 400), "thorough": (12000, 3000), "per_func": 4, "sim": {"quick": 300, "thorough": 2400},
             "what": "direct / indirect / recursive / imported calls"},
 }
 TOKEN_MODES = ((False, False), (False, True), (True, False), (True, True))       # (-m, -p)
@@ -119,6 +119,26 @@ def run(tier, PROP="C03"):
             trunc += res.get("truncated_at") is not None
             chk.count_case(("e2e", res["id"]), res.get("ncalls", 0) > 0,
                            ec.sample_of(res) if len(chk.coverage["samples"]) < 8 and res.get("ncalls", 0) > 2 else None)
+        # ---- sim-semantics: Model/Sim.lean's SOURCE semantics (what compile_sim/module_sim relate the emitted C to) vs V8 vs the
+        #      real compiled output, and tgt = src, on the modules above and on their core variants (globals folded to constants)
+        n_sim = cfg["sim"][tier]
+        core_specs = []
+        for (prof, share), g in zip(cfg["profiles"], gen):
+            if prof != "init":
+                core_specs += [dict(s, core_variant=True) for s in g[: max(1, int(n_sim * share))]]
+        core_results = ec.run_jobs(make_jobs(env, core_specs, cfg["per_func"]))
+        for res in core_results:
+            if judge(chk, PROP, res, stats):
+                behav.add(res["id"])
+        sim = ec.sim_tie(env, [r for r in results if "hex" not in r["spec"]] + core_results, driver_ok=pr["driver_ok"])
+        for k in range(sim["cases"]):
+            chk.coverage["evaluations"] += 1
+        if sim["disagreements"]:
+            unexplained = [x for x in sim["disagreements"] if x["module"] not in behav]
+            if unexplained:
+                broken.append({"kind": "correspondence", "name": "sim-semantics",
+                               "msg": "%d disagreement(s) between Model.Sim (src/tgt), V8 and the real output; first: %r" % (len(sim["disagreements"]), unexplained[0]),
+                               "modules": sorted(set(x["module"] for x in unexplained))[:10]})
         # ---- verdict on the token tie
         if tok_bad:
             unexplained = [s for s in tok_bad if s not in behav]
@@ -131,14 +151,20 @@ def run(tier, PROP="C03"):
             "programs": len(tok_specs), "disagreements_checked": stats["calls_compared"] + nfun,
             "rule": "emit-tokens case = (module seed:profile:index, -m, -p): every function's C token stream, real w2c2 vs Lean model; "
                     "e2e case = module + call script (round-robin over exported functions, %d boundary-heavy argument vectors each) on one "
-                    "instance, real w2c2 -> gcc -O1 vs V8: results/trap classes, ordered host-call trace with argument bits and instance "
+                    "instance, real w2c2 -> gcc -O1 vs V8 (sim-semantics case = one such call whose static call graph stays in the core covered by "
+                    "Model/Sim.lean — no globals/memory/imports — on the module or its core variant (globals folded to constants): `E mrun` src vs V8 "
+                    "vs real, tgt = src; `E elem` vs the real instance's table slots): results/trap classes, ordered host-call trace with argument bits and instance "
                     "identity, final memory hash, exported globals; non-trivial = module has >= 1 function (tokens) / >= 1 executed call (e2e)"
                     % cfg["per_func"],
             "emit_tokens_functions": nfun, "emit_tokens_modules": len(tok_specs), "emit_tokens_modes": ["plain", "-p", "-m", "-p -m"],
             "emit_tokens_mismatching_modules": len(tok_bad), "emit_tokens_skipped_modules": nskip,
             "e2e_modules": len([r for r in results if not r.get("error")]), "e2e_calls_compared": stats["calls_compared"],
             "e2e_host_calls_compared": stats["host_calls"], "e2e_scripts_truncated_at_v8_only_trap": trunc,
-            "e2e_outcomes": traps, "op_histogram": ec.top(ops, 60), "corpus_modules": len(corpus),
+            "e2e_outcomes": traps,
+            "sim_semantics_cases": sim["cases"], "sim_semantics_outcomes": sim["outcomes"], "sim_semantics_skipped": sim["skipped"],
+            "sim_semantics_calls_considered": sim["calls_considered"], "sim_semantics_disagreements": len(sim["disagreements"]),
+            "sim_semantics_runs_whose_call_graph_has_callees": sim.get("runs_whose_call_graph_has_callees", 0),
+            "sim_semantics_tables_compared_with_E_elem": sim["tables_compared"], "sim_semantics_core_variant_modules": len(core_specs), "op_histogram": ec.top(ops, 60), "corpus_modules": len(corpus),
             "traces_validated_against_impl": stats["calls_compared"],
         })
         chk.notes.append("module-level text (header prototypes, InitTables, exports array) is not rendered by the Lean driver yet: "
